@@ -237,7 +237,7 @@ def peval(expr, env: Dict[str, object]):
         a, b = peval(expr.left, env), peval(expr.right, env)
         if isinstance(a, Sym) or isinstance(b, Sym) or a is None or b is None:
             raise Unknown("arithmetic on an opaque value")
-        ops = {ast.Add: lambda: a + b, ast.Sub: lambda: a - b, ast.Mult: lambda: a * b, ast.FloorDiv: lambda: a // b, ast.Mod: lambda: a % b,
+        ops = {ast.Add: lambda: a + b, ast.Sub: lambda: a - b, ast.Mult: lambda: a * b, ast.FloorDiv: lambda: a // b, ast.Div: lambda: a / b, ast.Mod: lambda: a % b,
                ast.Pow: lambda: a ** b, ast.LShift: lambda: a << b, ast.RShift: lambda: a >> b, ast.BitAnd: lambda: a & b, ast.BitOr: lambda: a | b}
         f = ops.get(type(expr.op))
         if f is None:
@@ -301,3 +301,50 @@ def peval(expr, env: Dict[str, object]):
             except (TypeError, ValueError) as e:
                 raise Unknown(str(e))
     raise Unknown(f"`{key}` is outside the evaluable fragment")
+
+
+UNKNOWN = Sym("?")
+
+
+def run_block(stmts, env: Dict[str, object], on_call, depth=0):
+    """Abstractly execute straight-line code with ifs under one valuation of the atoms in env.
+    Assignments to plain names are evaluated with peval (values that cannot be evaluated become UNKNOWN);
+    `if` tests are evaluated with peval - an unevaluable test raises Unknown (the caller decides);
+    every call met in an expression statement, assignment or inside other compound statements is reported to
+    on_call(call, env).  Returns False when a `return`/`raise` ended the block."""
+    for st in stmts:
+        if isinstance(st, (ast.Assign, ast.AnnAssign)):
+            value = st.value
+            if value is None:
+                continue
+            for c in ast.walk(value):
+                if isinstance(c, ast.Call):
+                    on_call(c, env)
+            targets = st.targets if isinstance(st, ast.Assign) else [st.target]
+            try:
+                v = peval(value, env)
+            except Unknown:
+                v = UNKNOWN
+            for t in targets:
+                if isinstance(t, ast.Name):
+                    env[t.id] = v
+                elif isinstance(t, ast.Tuple):
+                    for e in t.elts:
+                        if isinstance(e, ast.Name):
+                            env[e.id] = UNKNOWN
+        elif isinstance(st, ast.If):
+            taken = bool(peval(st.test, env))
+            if not run_block(st.body if taken else st.orelse, env, on_call, depth + 1):
+                return False
+        elif isinstance(st, (ast.Return, ast.Raise)):
+            for c in ast.walk(st):
+                if isinstance(c, ast.Call):
+                    on_call(c, env)
+            return False
+        elif isinstance(st, (ast.FunctionDef, ast.AsyncFunctionDef, ast.ClassDef)):
+            continue
+        else:
+            for c in ast.walk(st):
+                if isinstance(c, ast.Call):
+                    on_call(c, env)
+    return True
